@@ -502,6 +502,12 @@ class SymCtx:
                 ax.append(z3.Implies(atom > a2, X > X2))
                 ax.append(z3.Implies(atom == a2, X == X2))
         self.atom_list.append((X, Y, atom))
+        if z3.is_rational_value(atom):
+            # numeric constant: rigorous rational enclosure of exp(c) from the Taylor series with remainder
+            enc = _exp_enclosure(Fraction(atom.numerator_as_long(), atom.denominator_as_long()))
+            if enc is not None:
+                lo, hi = enc
+                ax += [X >= z3.RealVal(f"{lo.numerator}/{lo.denominator}"), X <= z3.RealVal(f"{hi.numerator}/{hi.denominator}")]
         for a in ax:
             self.add_hyp(a)
         return X, Y
@@ -571,6 +577,24 @@ class SymCtx:
             zs.append(a.real())
         from .values import Sym
         return Sym(self.func(name, len(zs))(*zs))
+
+
+def _exp_enclosure(c, terms=24):
+    """Rational [lo, hi] containing exp(c) for a rational 0 <= c <= 8."""
+    if c < 0 or c > 8:
+        return None
+    s, t = Fraction(0), Fraction(1)
+    for k in range(terms):
+        s += t
+        t = t * c / (k + 1)
+    # remainder: sum_{k>=terms} c^k/k! <= t / (1 - c/(terms+1))
+    r = t / (1 - c / Fraction(terms + 1))
+    lo, hi = s, s + r
+    # keep the numerals small
+    D = 10 ** 12
+    lo = Fraction(int(lo * D), D)
+    hi = Fraction(int(hi * D) + 1, D)
+    return lo, hi
 
 
 def _z3_to_py(v):
